@@ -8,7 +8,7 @@ def A(name, pkg, test, **kw):
 CHECKS = {
     "C06": {
         "level": "model_checking",
-        "rule": "Engine A: every event sequence (depth 4 quick / 5 thorough) over {Allocate with LIFETIME in a boundary set, "
+        "rule": "Engine A: every event sequence (depth 4 quick / 5 thorough) over {Allocate with LIFETIME in a boundary set, Allocate refused by the relay address generator / the quota handler, "
                 "Refresh with LIFETIME in a boundary set, Refresh refused for a mismatching REQUESTED-ADDRESS-FAMILY (LIFETIME 0 and 3000), CreatePermission, ChannelBind, clock advance to next deadline -/+ 1ns, -/+ 1s, by 31s} "
                 "x 3 configured default lifetimes on the real turn.Server in virtual time; after every event the response, "
                 "Server.AllocationCount and a full probe sweep are compared with the reference model; then a drain through every "
@@ -20,8 +20,8 @@ CHECKS = {
 
 CHECKS["C07"] = {
     "level": "model_checking",
-    "rule": "Engine A: every event sequence (depth 5 quick / 6 thorough, after Allocate) over {CreatePermission [A],[B],[A,B],[A,V6-wrong-family], "
-            "ChannelBind (n1,A),(n2,B),(n1,B),(n2,A), clock advance to next deadline -/+1ns, -/+1s, by min-timeout/2} x 3 (permission,channel) timeout "
+    "rule": "Engine A: every event sequence (depth 5 quick / 6 thorough, after Allocate) over {CreatePermission [A],[B],[A,B],[A,V6-wrong-family],[A2 = other port of A's host], "
+            "ChannelBind (n1,A),(n2,B),(n1,B),(n2,A),(n2,A2), clock advance to next deadline -/+1ns, -/+1s, by min-timeout/2} x 3 (permission,channel) timeout "
             "configurations on the real turn.Server in virtual time; after every event the response and a probe sweep in both directions "
             "(3 peers incl. same-IP-other-port, 2 channel numbers) are compared with the reference model whose entries live exactly one timeout "
             "past the last successful install/refresh; then a drain through every remaining deadline at -1ns/+1ns.",
